@@ -550,6 +550,8 @@ def convo_ref_server(ctx, rng, idx):
 
 
 def run(ctx):
+    from rv import suiterun
+    suiterun.for_check(ctx, PROPERTY, ['dump_compared_bytewise', 'payloads_sent'])
     from rpyc.core import brine
     rng = ctx.rng
     if ctx.shard[0] == 0:
